@@ -725,12 +725,14 @@ def floors(merged, tier):
     r = merged["reach"]
     if r.get("timeouts", 0):
         out.append(f"{r['timeouts']} manager/solo process(es) hit the {RUN_TIMEOUT}s watchdog")
-    need = {"runs_sequential": 4, "runs_pool": 6, "runs_with_worker_reuse": 3, "runs_sequential_2plus": 4, "strategies_compared": 60}
+    # about a tenth of what the quick tier reaches on the unchanged tree
+    need = {"runs_sequential": 4, "runs_pool": 8, "runs_with_worker_reuse": 6, "runs_sequential_2plus": 4, "strategies_compared": 50,
+            "ran_after_vandal_in_same_process": 5}
     for k, v in need.items():
         if r.get(k, 0) < v:
             out.append(f"{k} = {r.get(k, 0)} < {v}")
-    if sum(v for k, v in r.items() if k.startswith("ran_after_") and "idle" not in k) < 10:
-        out.append("fewer than 10 strategies observed right after a trading strategy in the same process")
+    if sum(v for k, v in r.items() if k.startswith("ran_after_") and "idle" not in k) < 20:
+        out.append("fewer than 20 strategies observed right after a trading strategy in the same process")
     sched = [k for k in merged["classes"] if k.startswith("schedule/")]
     if len(sched) < 5:
         out.append(f"only {len(sched)} distinct schedules observed")
